@@ -46,6 +46,8 @@ func (self *BinaryConv) doNative(ctx context.Context, src []byte, desc *thrift.T
 		}
 	}()
 
+	// the native scanner loads whole vectors and may read a few bytes past the document
+	src = rt.GuardTail(src)
 	jp := rt.Mem2Str(src)
 	fsm.Init(0, unsafe.Pointer(desc))
 
